@@ -552,9 +552,10 @@ class Index:
         self.inlined = inline_private_helpers({mi.path: mi.tree for mi in self.modules.values()})
         from .normalform import inline_new_constants
         self.inlined += inline_new_constants({mi.path: mi.tree for mi in self.modules.values()})
-        from .normalform import dehoist_chains
+        from .normalform import dehoist_chains, unalias_fresh_containers
         self.dehoisted = 0
         for mi in self.modules.values():
+            self.canonicalised += unalias_fresh_containers(mi.tree)
             self.canonicalised += _canon_setdefault(mi.tree) + _canon_extend(mi.tree) + _canon_append_loop(mi.tree) + _canon_enumerate(mi.tree)
             self.canonicalised += _canon_items(mi.tree)  # before de-hoisting: `v = d[k]` in a key loop is the loop's value, not a hoisted chain
             self.dehoisted += dehoist_chains(mi.tree)
